@@ -117,24 +117,34 @@ fn c20_group(directed: bool, multi: bool, self_loops: bool, s: u8, group: u8) {
             core::mem::forget((h, i, j, k));
         }
         4 => {
-            // betweenness / closeness (hop counts)
-            let a = centrality::betweenness::betweenness_centrality(&g, false, true);
-            let b = centrality::closeness::closeness_centrality(&g, false, true);
-            vassert!(uses_error_channel(&a) && uses_error_channel(&b), "returned");
-            core::mem::forget((a, b));
+            // (betweenness_centrality / closeness_centrality cannot be compiled by Kani 0.68: their
+            // bodies contain the rayon branch, whose catch_unwind intrinsic crashes kani-compiler;
+            // their kernels run under C05 / C06.) Here: queries that must not panic on degenerate graphs.
+            let a = g.get_all_edges();
+            let b = g.get_all_node_names();
+            let c = g.get_edges_for_node(Nm(9));
+            let d = g.get_neighbor_nodes(Nm(9));
+            let e = g.get_successor_nodes(Nm(9));
+            let f = g.get_edges_for_nodes(&[Nm(9)]);
+            vassert!(uses_error_channel(&c) && uses_error_channel(&d) && uses_error_channel(&e) && uses_error_channel(&f), "returned");
+            core::mem::forget((a, b, c, d, e, f));
+            if let Some(x) = first {
+                let h = g.breadth_first_search(&x);
+                let i = g.get_edges_for_node(x);
+                let j = g.get_neighbor_nodes(x);
+                core::mem::forget((h, i, j));
+            }
         }
         5 => {
-            // shortest paths incl. absent source / target through the Result channel
-            let a = shortest_path::dijkstra::all_pairs(&g, false, None, None, false, true);
-            let b = shortest_path::dijkstra::all_pairs(&g, false, Some(Nm(9)), None, false, false);
+            // single_source incl. absent source / target through the Result channel (all_pairs /
+            // multi_source contain the rayon branch and cannot be compiled, see group 4)
             let c = shortest_path::dijkstra::single_source(&g, false, Nm(9), None, None, false, false);
-            let d = shortest_path::dijkstra::multi_source(&g, false, vec![Nm(9)], None, None, false, false);
-            vassert!(uses_error_channel(&a) && uses_error_channel(&b) && uses_error_channel(&c) && uses_error_channel(&d), "returned");
-            core::mem::forget((a, b, c, d));
+            vassert!(uses_error_channel(&c), "returned");
+            core::mem::forget(c);
             if let Some(x) = first {
                 let e = shortest_path::dijkstra::single_source(&g, false, x, Some(Nm(9)), None, false, true);
-                let f = shortest_path::dijkstra::get_all_shortest_paths_involving(&g, x, false);
-                vassert!(uses_error_channel(&e), "returned");
+                let f = shortest_path::dijkstra::single_source(&g, false, x, None, None, false, true);
+                vassert!(uses_error_channel(&e) && uses_error_channel(&f), "returned");
                 core::mem::forget((e, f));
             }
         }
@@ -150,6 +160,22 @@ fn c20_group(directed: bool, multi: bool, self_loops: bool, s: u8, group: u8) {
             let b = community::partitions::modularity(&g, &fam, false, None);
             vassert!(uses_error_channel(&b), "returned");
             core::mem::forget((a, b, fam));
+        }
+        8 => {
+            // weighted searches with constant weights that contain a tie (2->1 directly = 2->0->1) and,
+            // on self-loop kinds, a zero-weight self-loop; every option combination symbolic
+            let zero_loop = self_loops && s == 6;
+            let mut edges = vec![(2u8, 0u8, 1.0f64), (0, 1, 1.0), (2, 1, 2.0)];
+            if zero_loop {
+                edges.push((0, 0, 0.0));
+            }
+            let specs = GraphSpecs { self_loops, ..permissive(directed, multi) };
+            let tg = build_direct(specs, &[(2, None), (0, None), (1, None)], &edges);
+            let target = if any_bool() { Some(Nm(1)) } else { None };
+            let cutoff = if any_bool() { Some(2.0) } else { None };
+            let r = shortest_path::dijkstra::single_source(&tg, true, Nm(2), target, cutoff, any_bool(), any_bool());
+            vassert!(uses_error_channel(&r), "returned");
+            core::mem::forget((r, tg, edges));
         }
         _ => {
             // eigenvector centrality (one iteration is enough to reach every lookup)
